@@ -328,11 +328,9 @@ class Torrent():
             ``None`` if ``files`` is empty
         """
         def abspath(p):
-            # Absolute path without resolved symlinks
-            if p.is_absolute():
-                return pathlib.Path(os.path.normpath(p))
-            else:
-                return pathlib.Path.cwd() / os.path.normpath(p)
+            # Absolute path without resolved symlinks; normalize after joining
+            # so that leading ".." segments of relative paths are resolved
+            return pathlib.Path(os.path.normpath(pathlib.Path.cwd() / p))
 
         def relpath_without_parent(p):
             # Relative path without common parent directory
